@@ -87,8 +87,11 @@ def make_class(base, nvars, check, endo, extra=()):
     return Scripted
 
 
-def instantiate(cls, span, vals, status, iters, scripts):
+def instantiate(cls, span, vals, status, iters, scripts, lags=0, leads=0):
     m = cls(span)
+    # instance-level lags / leads, as SolverMixin.__init__ exposes them (copied from LAGS / LEADS; BaseModel.solve_t reads these)
+    m.lags = int(lags)
+    m.leads = int(leads)
     for i, row in enumerate(vals):
         m.__dict__['_V%d' % i][:] = [unhex(x) for x in row]
     m.__dict__['_status'][:] = status
